@@ -1,5 +1,6 @@
 mod chacha;
 mod guts;
+mod simd;
 mod util;
 
 fn arg<'a>(args: &'a [String], name: &str) -> Option<&'a str> {
@@ -37,6 +38,7 @@ fn main() {
         "stream-script" => chacha::run_script(&mut *out, arg(&args, "--script").expect("--script"), seed, true),
         "c14" => guts::drive_c14(&mut *out, seed, thorough),
         "c15" => guts::drive_c15(&mut *out, seed, thorough),
+        "simd" => simd::drive_simd(&mut *out, seed, thorough, arg(&args, "--cfg").unwrap_or("?"), arg(&args, "--force").map(|f| f.parse().unwrap()).unwrap_or(0)),
         "stream-end64" => chacha::drive_end64(&mut *out, seed, thorough),
         "stream-rand" => chacha::drive_histories(&mut *out, seed, thorough, true),
         d => {
